@@ -60,6 +60,17 @@ def fixed_programs(g):
                                {"name": "C", "shape": "tuple", "attrs": {}, "fields": [{"name": None, "ty": N("FxLeaf"), "attrs": {}}]}]})
     imap = {x["name"]: x for x in items}
     progs.append({"items": items, "probes": [{"ty": N(x["name"]), "values": g.all_variant_values(N(x["name"]), imap)[:3], "de": True} for x in items]})
+    # one shared file whose types import OVERLAPPING but different name sets from another shared file (one statement per file,
+    # every name once, whatever the order of the merges)
+    items = []
+    for n in ("FxD1", "FxD2", "FxD3"):
+        items.append({"kind": "struct", "name": n, "shape": "named", "attrs": {"export_to": "fxdeps.ts"}, "generics": [], "de": True,
+                      "fields": [{"name": "v", "ty": P("u8"), "attrs": {}}]})
+    for n, deps in (("FxS1", ["FxD1"]), ("FxS2", ["FxD1", "FxD2"]), ("FxS3", ["FxD2", "FxD3"]), ("FxS4", ["FxD3", "FxD1"])):
+        items.append({"kind": "struct", "name": n, "shape": "named", "attrs": {"export_to": "fxshared/all.ts"}, "generics": [], "de": True,
+                      "fields": [{"name": f"f{k}", "ty": N(d), "attrs": {}} for k, d in enumerate(deps)]})
+    imap = {x["name"]: x for x in items}
+    progs.append({"items": items, "probes": [{"ty": N(x["name"]), "values": g.all_variant_values(N(x["name"]), imap)[:2], "de": True} for x in items]})
     return progs
 
 
